@@ -196,3 +196,33 @@ def shutdown_hook_check(ch: Any, rule: str) -> None:
              'attempted on all %d path(s) (exception edges included; self._flush() exempt: it handles BrokenPipeError itself and no other OSError could be provoked)' % n,
              'the connection-close hook of the protocol plugin (access log, on_upstream_connection_close, upstream close / pool release) is skipped when %s: the enclosing handler swallows the error '
              'and the hook never runs' % (cex[0] if cex else '?'), witness=cex[1] if cex else None)
+
+
+def idle_predicate_check(ch: Any, rule: str) -> None:
+    """HttpProtocolHandler.is_inactive may report idle only with an empty client buffer"""
+    from ..cfg import cfg_of
+    from ..flow import Sym, fpaths
+    prog = ch.prog
+    HASBUF = 'self.work.has_buffer()'
+    ia = prog.own_method('HttpProtocolHandler', 'is_inactive')
+    gi = cfg_of(ia, prog)
+    bad4 = None
+    n4 = 0
+    for p in fpaths(gi):
+        if p.exit_kind != 'return':
+            continue
+        last = p.stmts()[-1]
+        if isinstance(last[1], ast.Return) and last[1].value is not None:
+            v = Sym(p).value(last[1].value, last[0])
+            if isinstance(v, ast.Constant) and not v.value:
+                continue
+            n4 += 1
+            if isinstance(v, ast.Constant) and v.value is True:
+                if dict(p.facts()).get(HASBUF) is not False:
+                    bad4 = ('is_inactive() reports an idle connection without requiring an empty client buffer: the reaper closes connections with undelivered output', p.describe())
+            else:
+                # boolean expression: must contain `not has_buffer()` as a conjunct
+                txt = norm(v).replace(' ', '')
+                if 'notself.work.has_buffer()and' not in txt and not txt.endswith('andnotself.work.has_buffer()'):
+                    bad4 = ('is_inactive() returns %s, which does not require an empty client buffer' % norm(v)[:80], p.describe())
+    ch.check(bad4 is None and n4 >= 1, rule, ia, 'idle predicate', 'idle only with an empty buffer', bad4[0] if bad4 else 'is_inactive never returns True', witness=bad4[1] if bad4 else None)
